@@ -236,7 +236,8 @@ def check(rep, args):
         rep.guard(check_config, rep, facts.program(cfg))
     cov = {
         "explanation": "exhaustive panic-edge enumeration over the call graph below parse_obj/read_obj with schema-based discharge, "
-                       "plus the Mesh::new callee contract (attribution, precondition on every path, running-maximum invariant)",
+                       "plus the Mesh::new callee contract by interpretation over in/out-of-range scenarios and the caller side by interpreting parse_obj on scripted "
+                       "token lines (sa/obj_sem.py): out-of-range faces are refused before Mesh::new, in-range input reaches it, fields are read in pos/uv/n order",
         "evaluations": len(rep.instances),
         "distinct_nontrivial": len({i["what"] for i in rep.instances}),
         "rules": ["P-total", "K-mesh", "B-build", "F-order"],
